@@ -14,7 +14,7 @@ NCPU = int(os.environ.get("VSG_VERIF_JOBS", "16"))
 
 
 def workdir(name):
-    d = os.path.join(VERIF, ".work", name)
+    d = os.path.join(os.environ.get("VSG_VERIF_SCRATCH") or VERIF, ".work", name)
     shutil.rmtree(d, ignore_errors=True)
     os.makedirs(d)
     return d
